@@ -182,40 +182,69 @@ def extract_model(out, obl):
 
 
 def solve_one(obl, timeout_s, want_model=True, extra="", second_opinion=False):
-    """Portfolio on one obligation. Returns dict(verdict, solver, seconds, model, log)."""
+    """Parallel portfolio on one obligation: all solvers start together, the first decisive answer wins.
+    Returns dict(verdict, solver, seconds, model, log)."""
     smt = obl["smt"] + extra + "(check-sat)\n"
     syms = [s for _, s in obl["vars"]]
-    log = []
-    verdict, model, who, secs = "unknown", {}, None, 0.0
-    answers = {}
+    procs = []
+    t0 = time.time()
     for name, cmd in solver_cmds(obl["theory"], timeout_s):
-        with tempfile.NamedTemporaryFile("w", suffix=".smt2", delete=False) as f:
-            if name.startswith("z3"):
-                f.write("(set-option :pp.decimal true)\n(set-option :pp.decimal_precision 20)\n")
-            f.write(smt)
-            path = f.name
-        out, dt, to = _run(cmd + [path], timeout=timeout_s + 10)
-        secs += dt
-        first = out.strip().splitlines()[0].strip() if out.strip() else ""
-        bad = "(error" in out
-        log.append((name, first if not bad else "error", round(dt, 3)))
-        if first in ("sat", "unsat") and not bad:
-            answers[name] = first
-            if verdict == "unknown":
-                verdict, who = first, name
-                if first == "sat" and want_model and syms:
-                    with open(path, "a") as f:
-                        f.write("(get-value (%s))\n" % " ".join(syms))
-                    out2, dt2, _ = _run(cmd + [path], timeout=timeout_s + 10)
-                    secs += dt2
-                    model = extract_model(out2, obl)
+        f = tempfile.NamedTemporaryFile("w", suffix=".smt2", delete=False)
+        if name.startswith("z3"):
+            f.write("(set-option :pp.decimal true)\n(set-option :pp.decimal_precision 20)\n")
+        f.write(smt)
+        if want_model and syms:
+            f.write("(get-value (%s))\n" % " ".join(syms))
+        f.close()
+        p = subprocess.Popen(cmd + [f.name], stdout=subprocess.PIPE, stderr=subprocess.STDOUT, text=True)
+        procs.append([name, p, f.name, None])
+    answers, log = {}, []
+    verdict, model, who = "unknown", {}, None
+    need = 2 if second_opinion else 1
+    deadline = t0 + timeout_s + 10
+    pending = list(procs)
+    while pending and len(answers) < need and time.time() < deadline:
+        progressed = False
+        for rec in list(pending):
+            name, p, path, _ = rec
+            if p.poll() is None:
+                continue
+            progressed = True
+            pending.remove(rec)
+            out = p.stdout.read()
+            first = out.strip().splitlines()[0].strip() if out.strip() else ""
+            # an `(error` line after `unsat` comes from the (get-value) we appended: harmless there
+            bad = "(error" in out and first != "unsat"
+            dt = time.time() - t0
+            log.append((name, first if not bad else "error", round(dt, 3)))
+            if first in ("sat", "unsat") and not bad:
+                answers[name] = first
+                if verdict == "unknown":
+                    verdict, who = first, name
+                    if first == "sat":
+                        model = extract_model(out, obl)
+        if not progressed:
+            time.sleep(0.01)
+    for name, p, path, _ in procs:
+        if p.poll() is None:
+            p.kill()
+            try:
+                p.wait(timeout=5)
+            except Exception:
+                pass
+        try:
+            p.stdout.close()
+        except Exception:
+            pass
+        try:
             os.unlink(path)
-            if not second_opinion or len(answers) >= 2:
-                break
-        else:
-            os.unlink(path)
+        except OSError:
+            pass
+    for name, p, path, _ in procs:
+        if name not in [l[0] for l in log]:
+            log.append((name, "killed/timeout", round(time.time() - t0, 3)))
     disagree = len(set(answers.values())) > 1
-    return {"verdict": "disagree" if disagree else verdict, "solver": who, "seconds": secs, "model": model, "log": log}
+    return {"verdict": "disagree" if disagree else verdict, "solver": who, "seconds": time.time() - t0, "model": model, "log": log}
 
 
 def margin_extra(obl):
@@ -225,6 +254,9 @@ def margin_extra(obl):
     ex = []
     for _, s in obl["vars"]:
         ex.append("(assert (and (<= (- 4.0) %s) (<= %s 4.0)))\n" % (s, s))
+    et = obl.get("eq_terms")
+    if et:
+        ex.append("(assert (or (>= (- %s %s) 0.125) (>= (- %s %s) 0.125)))\n" % (et[0], et[1], et[1], et[0]))
     return "".join(ex)
 
 
@@ -269,7 +301,7 @@ def decide_all(obls, tier, workers=16, log=None):
             r = solve_one(o, cap)
         o.update({"verdict": r["verdict"], "solver": r["solver"], "seconds": o.get("seconds", 0) + r["seconds"], "model": r["model"], "solver_log": r["log"]})
 
-    with ThreadPoolExecutor(max_workers=workers) as ex:
+    with ThreadPoolExecutor(max_workers=max(2, workers // 2)) as ex:
         list(ex.map(do_one, todo))
     # thorough: second opinion on a sample of fast unsat obligations
     checked = 0
